@@ -121,6 +121,34 @@ func (c01) Cases(tier string, emit func(string, interface{})) {
 			emit("S3c", filesCase{Root: "r.sysl", Files: map[string]string{"r.sysl": f1 + "\nimport y\nR:\n    ...\n", "y.sysl": f2 + "\nimport d\nY:\n    ...\n", "x.sysl": "import d\n" + xbody, "d.sysl": "D:\n    ...\n"}})
 		}
 	}
+	// S3d: long import chains and wide two-level fans (a bound on concurrent retrievals must not turn depth or
+	// width into a deadlock)
+	for _, n := range []int{5, 9, 12, 17, 33} {
+		files := map[string]string{}
+		for i := 0; i < n; i++ {
+			imp := ""
+			if i+1 < n {
+				imp = fmt.Sprintf("import c%d\n", i+1)
+			}
+			name := fmt.Sprintf("c%d.sysl", i)
+			if i == 0 {
+				name = "r.sysl"
+			}
+			files[name] = imp + fmt.Sprintf("C%d:\n    ...\n", i)
+		}
+		emit("S3d", filesCase{Root: "r.sysl", Files: files})
+	}
+	for _, w := range []int{7, 9, 17} {
+		files := map[string]string{}
+		root := ""
+		for i := 0; i < w; i++ {
+			root += fmt.Sprintf("import w%d\n", i)
+			files[fmt.Sprintf("w%d.sysl", i)] = fmt.Sprintf("import l%d\nW%d:\n    ...\n", i, i)
+			files[fmt.Sprintf("l%d.sysl", i)] = fmt.Sprintf("L%d:\n    ...\n", i)
+		}
+		files["r.sysl"] = root + "R:\n    ...\n"
+		emit("S3d", filesCase{Root: "r.sysl", Files: files})
+	}
 	// CLI: one representative per construct family and per crash class seen in the library runs
 	for _, s := range append(append([]string{}, gen.Seeds...), gen.CrashRepros...) {
 		one("CLI", s)
